@@ -109,7 +109,7 @@ def _requirements(tier):
         "stop:timedelta": 100, "stop:date": 100,
         "with-listeners": 50,
         "numerical-stream-completed": 20, "state-compared:keplernum": 40,
-        "scenario:shuffle": 50, "scenario:interleave": 50, "scenario:listener-reuse": 30, "listener-reuse:dates-mode": 10, "listener-reuse:range-mode": 10, "scenario:inplace-edit": 30,
+        "ephem:resampled-at-first-spacing:uneven-table": 5, "scenario:shuffle": 50, "scenario:interleave": 50, "scenario:listener-reuse": 30, "listener-reuse:dates-mode": 10, "listener-reuse:range-mode": 10, "scenario:inplace-edit": 30,
         "scenario:shared-propagator-sequential": 20, "scenario:shared-propagator-interleaved": 20,
         "scenario:edit-returned-state": 30, "returned-state-edit:values": 100, "returned-state-edit:form": 30, "returned-state-edit:frame": 30,
         "scenario:copy-made": 30, "scenario:cold-cache": 20, "scenario:generator-interleave": 20,
@@ -539,6 +539,18 @@ def gen_request(rng, spec, family):
             backward = rng.random() < 0.45
             stop = start - want if backward else start + want
             req.update(start=None if sc == "omitted" else start, start_class=sc, start_eff=start)
+        if is_ephem and len(spec["offs"]) > 2 and rng.random() < 0.15:
+            # re-sampling at the spacing of the table's FIRST two points, from its first point: on an unevenly sampled table
+            # (two rates, a gap, jitter) the requested grid is still start + k.step, not the stored nodes
+            first, last = spec["offs"][0], spec["offs"][-1]
+            step = spec["offs"][1] - spec["offs"][0]
+            nsteps = (last - first) // step
+            divides = (last - first) % step == 0
+            want = nsteps * step + (0 if divides else min(rng.randrange(1, step), last - first - nsteps * step))
+            backward = False
+            sc = rng.choice(["omitted", "at"])
+            start, stop = first, first + want
+            req.update(start=None if sc == "omitted" else start, start_class=sc, start_eff=start, native_first_step=True)
         if want == 0:
             backward = False
         req.update(stop=stop, step=step, nsteps=nsteps, divides=divides, backward=backward,
@@ -905,6 +917,10 @@ def stream_case(ctx, job, idx, rng, st):
             ctx.count("span:step-larger-than-span")
         if req["step_omitted"]:
             ctx.count("step:omitted")
+        if req.get("native_first_step") and not req["step_omitted"]:
+            offs_ = spec["offs"]
+            uneven = any(offs_[j + 1] - offs_[j] != req["step"] for j in range(len(offs_) - 1))
+            ctx.count("ephem:resampled-at-first-spacing:" + ("uneven-table" if uneven else "regular-table"))
         if req["backward"]:
             ctx.count("backward-step-given:" + req["step_given"])
     else:
